@@ -35,11 +35,16 @@ def jdec(x):
 
 
 def load_known():
-    try:
-        with open(KNOWN_FILE) as f:
-            return json.load(f)
-    except FileNotFoundError:
-        return {'findings': []}
+    """known_findings.json plus any known_findings.d/*.json (same format), committed files only read"""
+    out = {'findings': []}
+    import glob
+    for path in [KNOWN_FILE] + sorted(glob.glob(os.path.join(VERIF, 'known_findings.d', '*.json'))):
+        try:
+            with open(path) as f:
+                out['findings'] += json.load(f).get('findings', [])
+        except FileNotFoundError:
+            pass
+    return out
 
 
 class Check:
